@@ -280,9 +280,10 @@ class GateController(threading.Thread):
         director.park_pred = self._pred
 
     def _pred(self, key, phase):
-        if phase != self.phase or self.match not in key:
+        matches = self.match if isinstance(self.match, (list, tuple)) else [self.match]  # any of several substrings
+        if phase != self.phase or not any(m in key for m in matches):
             return False
-        if '.read#' in key and '.read#' not in self.match:
+        if '.read#' in key and not any('.read#' in m for m in matches):
             return False
         if self.limit is not None and len(self.released) + len(self.d.parked) >= self.limit:
             return False
